@@ -125,6 +125,56 @@ def get_path(doc, path):
     return doc, True
 
 
+def yaml_schema_cases():
+    """schema files written in YAML whose defaults are plain or block scalars (YAML 1.2: a date-like plain scalar is a string): the default reaches the
+    emitted code as written"""
+    yml = """type: object
+properties:
+  since:
+    type: string
+    default: 2024-01-15
+  stamp:
+    type: string
+    default: 2001-12-14T21:59:43Z
+  words:
+    type: string
+    default: plain words here
+  block:
+    type: string
+    default: |
+      line one
+      line two
+  folded:
+    type: string
+    default: >
+      folded text
+      continues
+  version:
+    type: string
+    default: "1.10"
+  list:
+    type: array
+    items:
+      type: string
+    default:
+      - 2024-01-15
+      - b c
+  k:
+    type: integer
+"""
+    want = {"since": "2024-01-15", "stamp": "2001-12-14T21:59:43Z", "words": "plain words here", "block": "line one\nline two\n", "folded": "folded text continues\n",
+            "version": "1.10", "list": ["2024-01-15", "b c"]}
+    schema = {"type": "object", "properties": {k: {"type": "string", "default": v} if not isinstance(v, list) else {"type": "array", "items": {"type": "string"}, "default": v}
+                                               for k, v in want.items()}}
+    schema["properties"]["k"] = {"type": "integer"}
+    docs = [({}, dict(want)), ({"k": 1, "since": None, "list": None}, dict(want, k=1)), ({"since": "x", "block": "y"}, dict(want, since="x", block="y"))]
+    out = []
+    for ext in ("yaml", "yml"):
+        out.append(Case("c09y" + ext, schema, [{"doc": d, "cls": "yaml-schema-defaults", "path": (), "want": w} for d, w in docs], fam="yaml-schema",
+                        extra_files={"s." + ext: yml}, argv=["s." + ext], no_model=True))
+    return out
+
+
 def run(ctx):
     ctx.proof_step(PROPS_FILE)
     cases = []
@@ -134,6 +184,7 @@ def run(ctx):
     coll = []
     for i, (root, docs) in enumerate(colliding()):
         coll.append(Case("c09c%d" % i, root, [{"doc": d, "cls": "colliding-defaults", "path": (), "want": w} for d, w in docs], fam="colliding-names"))
+    coll += yaml_schema_cases()
     n = 20 if ctx.tier == "quick" else 300
     rnd = build_cases(ctx, n, ["string", "integer", "number", "boolean"], {"optional-absent", "valid", "required-default"}, "c09x", docs_per=3,
                       gen_kwargs={"allow_formats": False})
@@ -166,18 +217,18 @@ def run(ctx):
                 break
     for c in coll:
         if not c.build_ok:
-            ctx.violation("oracle", dict(c.replay_obj(), build_err=c.build_err, gen_err=c.gen_err), "colliding definition names: generation failed or does not build")
+            ctx.violation("oracle", dict(c.replay_obj(), build_err=c.build_err, gen_err=c.gen_err), "%s: generation failed or does not build" % c.fam)
             nv += 1
             continue
         ctx.cov["programs"] += 1
         for di, d in enumerate(c.docs):
             o = d.get("obs") or {}
-            ctx.count({"s": c.schema, "d": d["doc"]}, True, "defaults/colliding-names")
+            ctx.count({"s": c.schema, "d": d["doc"], "f": c.fam}, True, "defaults/" + c.fam)
             got = json.loads(o["out"]) if o.get("v") == "ACC" else None
             if got is None or not json_eq(got, d["want"]):
                 if nv < 6:
-                    ctx.violation("oracle", c.replay_obj(di), "definitions with colliding Go names: document %s decodes to %s, expected %s (each definition keeps its own defaults)"
-                                  % (json.dumps(d["doc"]), o.get("out") or o.get("err"), json.dumps(d["want"])))
+                    ctx.violation("oracle", c.replay_obj(di), "%s: document %s decodes to %s, expected %s (every property keeps the default its own schema states)"
+                                  % (c.fam, json.dumps(d["doc"]), o.get("out") or o.get("err"), json.dumps(d["want"])))
                 nv += 1
     # random schemas: every absent defaulted property shows its default after decoding
     for c in rnd:
